@@ -697,7 +697,9 @@ class VCluster:
         os.makedirs(scratch, exist_ok=True)
         env = {"SLURM_JOB_ID": str(hid), "SLURM_NODEID": "0", "LOCAL_SCRATCH": os.path.abspath(scratch),
                "SLURM_CPUS_ON_NODE": str(self.sc.get("cpus", 4))}
-        p = self.spawn("node", f"node{hid}", lambda: self._entry_node(b["argv"]), env=env)
+        # sharedHosts: nodes are not exclusive - several batches of the submission run on the same host (same hostname)
+        host = f"node{hid % 2}" if self.sc.get("sharedHosts") else f"node{hid}"
+        p = self.spawn("node", host, lambda: self._entry_node(b["argv"]), env=env)
         p.batch = b["batch"]
         p.hpc_id = hid
         b["state"] = "running"
